@@ -18,8 +18,17 @@ Interpretation choices of the oracle (all taken from the statement, stated here 
   * "on the selected band for multiband images": the band is selected BY NAME in each image independently (band_im
     coordinate); the two images may list their bands in a different order and need not hold the same number of bands
     (clause C02.band.by_name, cases of gen_band_case);
-  * cmax: the statement only says it "matches the measure": checked as  max finite cost <= cmax <= trivial bound
-    (w^2 * range for sad, w^2 * range^2 for ssd, w^2 for census, == 1 for zncc).
+  * cmax: the statement only says it "matches the measure"; the user guide (as_an_api.rst) only shows it as an integer attribute
+    next to type_measure and no docstring of the public API gives a formula, so only the meaning of the words is checked: the
+    reported maximal cost is an upper bound of every computable cost and is not above the trivial bound of the measure:
+    max finite cost <= cmax <= trivial bound (w^2 * range for sad, w^2 * range^2 for ssd, w^2 for census, == 1 for zncc).
+    With integer radiometry (all the cases but those of gen_radiometry_case) every quantity is an integer.  With NON-INTEGER
+    radiometry (gen_radiometry_case: multiples of 1/8, images normalised to [0,1], sad/ssd only) two ways of failing the upper
+    bound are told apart by the witness class, because the attribute is reported as an integer:
+      <measure>-fractional-radiometry-cost-above-cmax                   a computable cost >= cmax + 1: cmax is not even the
+                                                                        integer part of an upper bound of the costs;
+      <measure>-fractional-radiometry-cost-above-cmax-by-less-than-one  cmax < largest cost < cmax + 1: only the fraction lost by
+                                                                        reporting the bound as an integer (truncation).
 """
 import itertools
 import time
@@ -307,11 +316,30 @@ def _evaluate(case):
     if tm != ("max" if method == "zncc" else "min"):
         out.append(("C02.attrs.type_measure", method, "type_measure=%r" % (tm,), None))
     cmax = cv.attrs.get("cmax")
-    finite = ocost[np.isfinite(ocost)]
-    top = float(np.abs(finite).max()) if finite.size else 0.0
+    finite = np.isfinite(ocost)
+    top = float(np.abs(ocost[finite]).max()) if finite.any() else 0.0
     rng_ = float(max(Lb.max(), Rb.max()) - min(Lb.min(), Rb.min()))
     loose = {"sad": rng_ * w * w, "ssd": rng_ ** 2 * w * w, "census": float(w * w), "zncc": 1.0}[method]
-    if cmax is None or not (top - (ZNCC_TOL if method == "zncc" else 0) <= cmax <= loose) or (method == "zncc" and cmax != 1):
+    if method in ("sad", "ssd") and not (is_integer_grid(Lb) and is_integer_grid(Rb)):
+        # non-integer radiometry: the costs are not integers whereas cmax is reported as one (see the module docstring)
+        tag = "%s-fractional-radiometry" % method
+        cell = [int(i) for i in np.argwhere(finite & (np.abs(ocost) == top))[0]] if finite.any() else None
+        where = "" if cell is None else " at (row %d, col %d, d=%s)" % (cell[0], cell[1], planes[cell[2]])
+        facts = ("cmax=%r, largest computable cost=%r%s, trivial bound=%r (window %d, left radiometry in [%r, %r], right in [%r, %r])"
+                 % (cmax, top, where, loose, w, float(Lb.min()), float(Lb.max()), float(Rb.min()), float(Rb.max())))
+        if cmax is None:
+            out.append(("C02.attrs.cmax", tag + "-cmax-missing", facts, None))
+        elif top >= cmax + 1:
+            out.append(("C02.attrs.cmax", tag + "-cost-above-cmax",
+                        "a computable cost exceeds the reported maximal cost by %r (>= 1: more than reporting the bound as an integer "
+                        "can lose): %s" % (top - cmax, facts), cell))
+        elif top > cmax:
+            out.append(("C02.attrs.cmax", tag + "-cost-above-cmax-by-less-than-one",
+                        "a computable cost exceeds the reported maximal cost by %r (< 1: the fraction lost by reporting the bound as "
+                        "an integer): %s" % (top - cmax, facts), cell))
+        elif cmax > loose:
+            out.append(("C02.attrs.cmax", tag + "-cmax-above-trivial-bound", facts, None))
+    elif cmax is None or not (top - (ZNCC_TOL if method == "zncc" else 0) <= cmax <= loose) or (method == "zncc" and cmax != 1):
         out.append(("C02.attrs.cmax", "%s-%s" % (method, kind + ("-by-name" if is_by_name(case) else "")),
                     "cmax=%r, max |finite cost|=%r, trivial bound=%r" % (cmax, top, loose), None))
     return out, nfinite
@@ -427,7 +455,69 @@ def fractional_grids(rng, ny, nx, fkind):
     return gmin.tolist(), gmax.tolist()
 
 
+RADIOMETRY_KINDS = ("unit-half-open", "unit-closed", "bright-dark-planted", "general")
+RADIOMETRY_ROUNDS = {"quick": 1, "thorough": 12}  # random rounds of the 2 x 3 x 3 x 4 (measure, window, subpix, kind) combinations
+RADIOMETRY_CONSTANTS = [(1.5, 0.0), (0.875, 0.0)]  # (left, right) radiometry of the constant w x w pairs run first
+
+
+def _radiometry_case(method, w, subpix, L, R, interval):
+    return {"method": method, "window": w, "subpix": subpix, "left": np.asarray(L).tolist(), "right": np.asarray(R).tolist(),
+            "band": None, "bands": None, "msk_left": None, "msk_right": None, "interval": list(interval), "gmin": None, "gmax": None}
+
+
+def gen_radiometry_case(rng, method, w, subpix, kind, rnd=99):
+    """sad/ssd pair with NON-INTEGER radiometry: multiples of 1/8 (exact in float32, as are the costs, also interpolated ones), scalar
+    interval containing 0 within [-2,2], image of w+1..w+3 rows x w+3..w+5 columns (smallest first).  Kinds:
+      unit-half-open       reflectance-like images normalised to [0,1): values k/8, k in 0..7;
+      unit-closed          images normalised to [0,1]: values k/8, k in 0..8, both 0 and 1 present in each image;
+      bright-dark-planted  left in [2.5,3.75], right in [0.25,1.0], with one w x w patch holding the left maximum / the right minimum
+                           at the same place in both images, so that the largest cost the measure allows is reached at d = 0;
+      general              values k/8, k in 0..40, random masks (as gen_case) in half of the cases."""
+    ny, nx = (w + 1, w + 3) if rnd == 0 else (w + int(rng.integers(1, 4)), w + int(rng.integers(3, 6)))
+    a, b = int(rng.integers(-2, 1)), int(rng.integers(0, 3))
+    shape = (ny, nx)
+    if kind == "unit-half-open":
+        L, R = rng.integers(0, 8, size=shape) / 8.0, rng.integers(0, 8, size=shape) / 8.0
+    elif kind == "unit-closed":
+        L, R = rng.integers(0, 9, size=shape) / 8.0, rng.integers(0, 9, size=shape) / 8.0
+        for im in (L, R):
+            spots = rng.choice(ny * nx, size=2, replace=False)
+            im.flat[spots[0]], im.flat[spots[1]] = 0.0, 1.0
+    elif kind == "bright-dark-planted":
+        L, R = rng.integers(20, 31, size=shape) / 8.0, rng.integers(2, 9, size=shape) / 8.0
+        r0, c0 = int(rng.integers(0, ny - w + 1)), int(rng.integers(0, nx - w + 1))
+        L[r0:r0 + w, c0:c0 + w], R[r0:r0 + w, c0:c0 + w] = 3.75, 0.25
+    else:
+        L, R = rng.integers(0, 41, size=shape) / 8.0, rng.integers(0, 41, size=shape) / 8.0
+    case = _radiometry_case(method, w, subpix, L, R, (a, b))
+    if kind == "general" and rng.random() < 0.5:
+        p = float(rng.choice([0.03, 0.08]))
+        case["msk_left"], case["msk_right"] = _mask(rng, shape, p).tolist(), _mask(rng, shape, p).tolist()
+    return case
+
+
+def enumerate_radiometry(tier, seed):
+    """the cases with non-integer radiometry (sad/ssd, windows 1/3/5), run before all the others: first the constant w x w pairs
+    of RADIOMETRY_CONSTANTS with the single disparity 0 (one computable cell: the smallest witnesses), then random rounds"""
+    for lv, rv in RADIOMETRY_CONSTANTS:
+        for m in ("sad", "ssd"):
+            for w in (1, 3, 5):
+                yield _radiometry_case(m, w, 1, np.full((w, w), lv), np.full((w, w), rv), (0, 0))
+    rng_r = np.random.default_rng([seed, 0xF8])  # own stream: the other cases do not depend on these
+    for n in range(RADIOMETRY_ROUNDS[tier]):
+        for kind in RADIOMETRY_KINDS:
+            for m in ("sad", "ssd"):
+                for w in (1, 3, 5):
+                    for s in (1, 2, 4):
+                        yield gen_radiometry_case(rng_r, m, w, s, kind, n)
+
+
+def is_fractional_radiometry(case):
+    return not (is_integer_grid(case["left"]) and is_integer_grid(case["right"]))
+
+
 def enumerate_domain(tier, seed):
+    yield from enumerate_radiometry(tier, seed)
     rng = np.random.default_rng(seed)
     per_combo = PER_COMBO[tier]
     combos = [(m, w, s, b) for (m, w) in METHOD_WINDOWS for s in (1, 2, 4) for b in ("mono", "r", "g")]
@@ -470,7 +560,7 @@ def run(tier, seed):
     rec.functions.update(REAL_FUNCTIONS)
     budget = 72 if tier == "quick" else 1000  # wall seconds, import of pandora included
     t0 = time.time()
-    done = nfrac = nbyname = 0
+    done = nfrac = nbyname = nradio = 0
     for case in enumerate_domain(tier, seed):
         if time.time() - t0 > budget:
             break
@@ -478,11 +568,13 @@ def run(tier, seed):
         done += 1
         nfrac += int(case["gmin"] is not None and not (is_integer_grid(case["gmin"]) and is_integer_grid(case["gmax"])))
         nbyname += int(is_by_name(case))
+        nradio += int(is_fractional_radiometry(case))
         small = {k: case[k] for k in ("method", "window", "subpix", "band", "interval")}
         if is_by_name(case):
             small["bands_left"], small["bands_right"] = case["bands_left"], case["bands_right"]
         small["grids"] = None if case["gmin"] is None else ("integer" if is_integer_grid(case["gmin"]) and is_integer_grid(case["gmax"]) else "fractional")
         small["shape"] = list(np.shape(case["left"]))
+        small["radiometry"] = "multiples of 1/8" if is_fractional_radiometry(case) else "integer"
         small["computable_cells"] = nfinite
         rec.case(key=case_key(case), nontrivial=nfinite > 0, sample=small)
         for clause, wclass, msg, cell in viols:
@@ -490,7 +582,12 @@ def run(tier, seed):
             wit.update({"clause": clause, "witness_class": wclass, "cell": cell})
             rec.violation(clause=clause, witness_class=wclass, message=msg, witness=wit)
     return rec.result(
-        bound="seeded-random image pairs of 4..6 rows x 7..9 columns (mono, or 2 bands 'r','g' with either band selected) over "
+        bound="[run first] sad/ssd x windows {1,3,5} on pairs with NON-INTEGER radiometry (multiples of 1/8): constant w x w pairs "
+              "(left 1.5 / right 0, left 0.875 / right 0; single disparity 0), then %d round(s) of one random pair per (measure, window, "
+              "subpix {1,2,4}, kind) of w+1..w+3 rows x w+3..w+5 columns with a scalar interval [a,b], -2<=a<=0<=b<=2, kinds: images "
+              "normalised to [0,1) (k/8, k<=7); normalised to [0,1] (k/8, k<=8, 0 and 1 present in both); left in [2.5,3.75] / right in "
+              "[0.25,1.0] with a w x w patch of the left maximum facing the right minimum; k/8 for k<=40 with random masks in half of "
+              "the cases: %d such cases run.  [then] seeded-random image pairs of 4..6 rows x 7..9 columns (mono, or 2 bands 'r','g' with either band selected) over "
               "{0,1,3} or integers 0..15 (with flat patches in 3 cases out of 10), masks absent/left/right/both over {0 valid,1 nodata,2 invalid}, "
               "measures sad/ssd/zncc x windows {1,3,5} and census x {3,5}, subpix {1,2,4}, all 28 scalar intervals within [-3,3] "
               "(1/2 of the cases), random integer per-pixel grids min<=max within [-3,3] (1/4), or float32 per-pixel grids min<=max within "
@@ -501,8 +598,12 @@ def run(tier, seed):
               "named among r,g,b in each image, the two band lists differing in order and/or number (first r,g,b/b,g,r select r; r,g/g,r "
               "select g; r,g/b,g,r select r; then drawn among the %d (left list, right list, common band) triples, 3 out of 4 with the selected "
               "band at different positions), the band selected by name; %d cases run of which %d with fractional grids and %d by-name pairs"
-              % (N_FRACTIONAL_KINDS, PER_COMBO[tier], len(BAND_TRIPLES), done, nfrac, nbyname),
-        rule="cases are drawn with np.random.default_rng(seed), round-robin over the 99 (measure,window,subpix,band) combinations, each "
+              % (RADIOMETRY_ROUNDS[tier], nradio, N_FRACTIONAL_KINDS, PER_COMBO[tier], len(BAND_TRIPLES), done, nfrac, nbyname),
+        rule="non-integer radiometry cases (own stream default_rng([seed, 0xF8])) come first and are checked like every other case "
+             "(costs are multiples of 1/1024, exact in float32); with them the reported maximal cost (an integer attribute) is checked "
+             "as an upper bound of every computable cost, witness classes telling apart an excess >= 1 (cost-above-cmax) from an excess "
+             "< 1 (cost-above-cmax-by-less-than-one, the truncation of the bound to an integer), and as <= the trivial bound of the measure; "
+             "no formula for cmax is demanded (none is documented in the user guide or the docstrings).  Then: cases are drawn with np.random.default_rng(seed), round-robin over the 99 (measure,window,subpix,band) combinations, each "
              "combination taking by turns scalar, scalar, integer grids, fractional grids; every cell (row,col,disparity plane) of the real "
              "cost volume is compared with the naive oracle: exactly for sad/ssd/census (integer radiometry, costs are multiples of 1/16), "
              "|diff|<=1e-4 for zncc; NaN pattern compared exactly (a sample d is outside a pixel's interval iff d < min(r,c) or d > max(r,c), "
